@@ -26,8 +26,11 @@ BOUNDS = {
     'quick': 'placement obligations: concrete tables of 2, 3, 4 points (unsorted supply order) with T_ref, T and the range symbolic reals (every placement relative to the span is a path); all values symbolic reals: supply order for tables of 1..3 points; H-integral identity for 1..2 points; '
              'S-integral/Cp/reference values/G for 1 point; wrapper delegation for 1..2 points; one seeded shipped group from each of six libraries with its real FITPACK spline as an exact piecewise polynomial and T symbolic over the whole range; T_ref, T anywhere in a '
              'symbolic range with lo>0 (below/at/inside/above the span are paths)',
-    'thorough': 'supply order and H-integral for 1..4 points; S-integral, Cp/refs, wrapper for 1..3 points (obligations that '
-                'do not close within 1500 s are reported inconclusive); 72 shipped groups (seeded) of six libraries: the real FITPACK spline '
+    'thorough': 'supply order and H-integral for 1..4 points; S-integral, Cp/refs, wrapper for 1..3 points; the 4-point H-integral and the '
+                '2- and 3-point S-integrals are split into 9 obligations each over the position (below / inside / above the table span) of T and '
+                'of T_ref, 400 s each: the same-side and both-inside regions close, regions where the integral crosses a span end with all '
+                'table values symbolic mostly do not (nonlinear real arithmetic, uninterpreted logarithm) and are reported inconclusive - the '
+                'placement obligations with concrete tables cover those branches; 72 shipped groups (seeded) of six libraries: the real FITPACK spline '
                 'as an exact piecewise polynomial with T symbolic over the whole range (H integral and Cp)',
 }
 STUBS = ['PolySpline/SplineFactory for InterpolatedUnivariateSpline', 'NpShim', 'LN uninterpreted + QuadStub',
@@ -69,10 +72,26 @@ def _build(npts, need_pos=True):
     tmin, tmax = th.smin(Ts), th.smax(Ts)
     if not (0 < lo <= tmin and tmax <= hi and lo <= Tref <= hi):
         return None
+    T = None
+    if PARAM.get('region') is not None:
+        # split of one obligation over the position of T and T_ref relative to the table span (assumed before the
+        # constructor runs so that the other eight regions are pruned early); the nine regions together cover everything
+        T = R('T')
+        rT, rR = PARAM['region']
+        if not (_in_region(T, tmin, tmax, rT) and _in_region(Tref, tmin, tmax, rR)):
+            return None
     H, S = R('H'), R('S')
     obj = m['rd'].ThermochemRawData(H, S, Ts, Cps, Tref, (lo, hi))
     return dict(m=m, Ts=Ts, Cps=Cps, sp=sp, lo=lo, hi=hi, Tref=Tref, tmin=tmin, tmax=tmax, H=H, S=S, obj=obj,
-                fac=fac, q=q)
+                fac=fac, q=q, T=T)
+
+
+def _in_region(x, tmin, tmax, r):
+    if r == 0:
+        return x < tmin
+    if r == 1:
+        return tmin <= x <= tmax
+    return x > tmax
 
 
 def h_integral_H(d: bool):
@@ -83,7 +102,7 @@ def h_integral_H(d: bool):
     b = _build(PARAM.get('npts', 2))
     if b is None:
         return skip()
-    T = R('T')
+    T = b['T'] if b['T'] is not None else R('T')
     if not (b['lo'] <= T <= b['hi']):
         return skip()
     status = 'value'
@@ -116,7 +135,7 @@ def h_integral_S(d: bool):
     b = _build(PARAM.get('npts', 2))
     if b is None:
         return skip()
-    T = R('T')
+    T = b['T'] if b['T'] is not None else R('T')
     if not (b['lo'] <= T <= b['hi']):
         return skip()
     ln_axioms([T, b['Tref'], b['tmin'], b['tmax']])
@@ -267,14 +286,23 @@ def obligations(tier, seed):
     obs = []
     for n in (1, 2, 3) if q else (1, 2, 3, 4):
         obs.append(dict(name='init_order_n%d' % n, func='h_init_order', param=dict(npts=n), timeout=to))
-    for n in (1, 2) if q else (1, 2, 3, 4):
+    regions = [(a, b) for a in range(3) for b in range(3)]
+    for n in (1, 2) if q else (1, 2, 3):
         obs.append(dict(name='integral_H_n%d' % n, func='h_integral_H', param=dict(npts=n), timeout=to))
+    if not q:
+        for rg in regions:
+            obs.append(dict(name='integral_H_n4_r%d%d' % rg, func='h_integral_H', param=dict(npts=4, region=list(rg)), timeout=400))
     for n in (2, 3, 4):
         obs.append(dict(name='placement_S_n%d' % n, func='h_integral_S', param=dict(npts=n, concrete_table=True), timeout=to, abstraction=True))
         obs.append(dict(name='placement_H_n%d' % n, func='h_integral_H', param=dict(npts=n, concrete_table=True), timeout=to))
         obs.append(dict(name='placement_refs_n%d' % n, func='h_cp_and_refs', param=dict(npts=n, concrete_table=True), timeout=to, abstraction=True))
     for n in (1,) if q else (1, 2, 3):
-        obs.append(dict(name='integral_S_n%d' % n, func='h_integral_S', param=dict(npts=n), timeout=to, abstraction=True))
+        if n == 1:
+            obs.append(dict(name='integral_S_n%d' % n, func='h_integral_S', param=dict(npts=n), timeout=to, abstraction=True))
+        else:
+            for rg in regions:
+                obs.append(dict(name='integral_S_n%d_r%d%d' % ((n,) + rg), func='h_integral_S',
+                                param=dict(npts=n, region=list(rg)), timeout=400, abstraction=True))
         obs.append(dict(name='cp_and_refs_n%d' % n, func='h_cp_and_refs', param=dict(npts=n), timeout=to, abstraction=True))
     import random
     rnd = random.Random(seed)
